@@ -61,8 +61,9 @@ class Scenario:
     """builds, in lock step, the harness script for the real task over loopback and the event script for the model;
     the replica only tells how many listener notifications / completions to wait for and where to hold the task"""
 
-    def __init__(self, mt):
-        self.cfg = {'cap': 4, 'handles': 1, 'mt': mt, 'rmin': RMS * MS, 'rmax': 2 * RMS * MS}
+    def __init__(self, mt, rms=RMS):
+        self.rms = rms
+        self.cfg = {'cap': 64, 'handles': 1, 'mt': mt, 'rmin': rms * MS, 'rmax': 2 * rms * MS}   # cap: never fills (a full queue would block the script's own calls while the task is held)
         self.sim = cl.Sim(self.cfg)
         self.h = []               # harness steps
         self.m = []               # model steps
@@ -137,6 +138,56 @@ class Scenario:
             self._do(['X'], [('X',)], done=True)
         elif name == 'drop':
             self._do(['H'], [('H',)], done=True)
+        elif name == 'during_wait':
+            # commands that arrive WHILE the task waits before the next attempt (after a failed connect or a lost
+            # connection): a request fails at once, a redundant enable and a decode-level change change nothing, and the
+            # next Connecting comes when the announced delay is over - not earlier
+            if s.ph != 'Waiting' or not self.held:
+                return
+            early = self.rms // 20                                   # well inside the delay (scenario built with a long one)
+            ev = [('T', early * MS)]
+            acts = ['go', f'sleep:{early}']
+            for cmd in arg:
+                if cmd == 'S':
+                    ev.append(('S', self.nid, 'r', TMO * MS, 'f'))
+                    acts.append(f'S:{self.nid}:{TMO}')
+                    self.nid += 1
+                elif cmd == 'E':
+                    ev.append(('E', 'f'))
+                    acts.append('E')
+                else:
+                    ev.append(('L', 'min', 'f'))
+                    acts.append('L')
+            ev += [('T', cl.fires_at(s.until) - s.now - early * MS)] + self.connect_outcome()
+            self.held = False
+            self._do(acts, ev)
+        elif name == 'inject_disabled':
+            # hold the task AT the Disabled notification that follows a disable and inject the next command there
+            if s.ph != 'Idle':
+                return
+            cmd = arg
+            hold_at = s.nl + 1
+            first = [('D', 'f')]
+            second = {'E': [('E', 'f')] + self.connect_outcome(), 'X': [('X',)], 'H': [('H',)], 'S': [('S', self.nid, 'r', TMO * MS, 'f')]}[cmd]
+            pred = copy.deepcopy(s)
+            for e in first + second:
+                pred.apply(e)
+            if pred.ph == 'Waiting':
+                return                                   # would need a second hold while one is pending
+            act = {'E': 'E', 'X': 'X', 'H': 'H', 'S': f'S:{self.nid}:{TMO}'}[cmd]
+            if cmd == 'S':
+                self.nid += 1
+            self.h += [f'hold:{hold_at}', 'D', f'wait:{hold_at}', act, 'go']
+            if pred.nl > hold_at:
+                self.h.append(f'wait:{pred.nl}')
+            if pred.nc > s.nc:
+                self.h.append(f'waitc:{pred.nc}')
+            if pred.ph == 'Done':
+                self.h.append('done')
+            if any(e[0] == 'CO' for e in second):
+                self.conn_mode = self.env
+            self.m += first + second
+            self.sim = pred
         elif name == 'inject':
             # hold the task AT a transition (Connecting / Connected notification) and inject a command there
             at, cmd = arg
@@ -187,7 +238,7 @@ class Scenario:
 
     def finish(self):
         self.h.append('sleep:60')
-        return (f'cap=4 mt={self.cfg["mt"]} rmin={RMS} rmax={2 * RMS} | ' + ' '.join(self.h), (self.cfg, self.m))
+        return (f'cap=64 mt={self.cfg["mt"]} rmin={self.rms} rmax={2 * self.rms} | ' + ' '.join(self.h), (self.cfg, self.m))
 
 
 def gen_loopback(r, n):
@@ -207,6 +258,23 @@ def gen_loopback(r, n):
         [('env', 'serve'), ('inject', ('lN', 'S')), 'shutdown'], [('env', 'refuse'), ('inject', ('lC', 'D')), 'shutdown'],
         [('env', 'refuse'), 'enable', 'shutdown'], [('env', 'refuse'), 'enable', 'drop'], [('env', 'close'), 'enable', 'shutdown'],
         [('env', 'silent'), 'enable', 'submit', 'shutdown'], [('env', 'serve'), 'enable', 'disable', 'disable', 'enable', 'enable', 'drop'],
+    ]
+    # commands during the reconnect delay (long delay so that "during" is robust on a loaded machine)
+    for cmds in (['S'], ['E'], ['L'], ['S', 'E', 'L'], ['L', 'S']):
+        for env2 in ('refuse', 'serve'):
+            sc = Scenario(0, rms=800)
+            for o in [('env', 'refuse'), 'enable', ('during_wait', cmds), ('env', env2), ('during_wait', list(reversed(cmds))), 'shutdown']:
+                sc.op(*((o,) if isinstance(o, str) else o))
+            out.append(sc)
+    sc = Scenario(0, rms=800)
+    for o in [('env', 'close'), 'enable', ('env', 'serve'), ('during_wait', ['S', 'L', 'E']), 'submit', 'drop']:
+        sc.op(*((o,) if isinstance(o, str) else o))
+    out.append(sc)
+    directed += [
+        [('env', 'serve'), 'enable', ('inject_disabled', 'E'), 'submit', 'shutdown'],
+        [('env', 'serve'), 'enable', ('inject_disabled', 'X')], [('env', 'silent'), 'enable', ('inject_disabled', 'H')],
+        [('env', 'serve'), 'enable', ('inject_disabled', 'S'), 'enable', 'submit', 'drop'],
+        [('env', 'serve'), 'enable', ('env', 'close'), ('inject_disabled', 'E'), 'shutdown'],
     ]
     for ops in directed:
         for mt in (0, 2):
@@ -229,8 +297,10 @@ def gen_loopback(r, n):
                 sc.op('retry')
             elif k < 0.9:
                 sc.op('submit')
-            elif k < 0.95:
+            elif k < 0.93:
                 sc.op('inject', (r.choice(['lC', 'lN']), r.choice('DXHS')))
+            elif k < 0.97:
+                sc.op('inject_disabled', r.choice('EXHS'))
             else:
                 sc.op(r.choice(['shutdown', 'drop']))
         sc.op(r.choice(['shutdown', 'drop']))
@@ -259,11 +329,16 @@ def judge_loopback(ctx, items):
     for (ops, line, mcase), i, m in zip(items, impl, mod):
         parts = i.split('|')
         spec, other = [], []
-        if i == 'PANIC' or len(parts) != 5:
+        if i == 'PANIC' or len(parts) != 6:
             spec.append('panic-or-garbled-output')
         else:
-            ls, comp, fin, accepts, tmo = parts
+            ls, comp, fin, accepts, tmo, gaps = parts
             ls = ls.split()
+            gaps = [int(x) for x in gaps.split()]
+            # the next Connecting after a wait state does not come before the announced delay is over
+            for k in range(1, len(ls)):
+                if ls[k] == 'lC' and ls[k - 1][:2] in ('lF', 'lW') and k - 1 < len(gaps) and gaps[k - 1] + 1 < int(ls[k - 1][2:]) // MS:
+                    spec.append('C13.reconnect-attempt-earlier-than-the-announced-delay')
             traces.append(ls)
             if not ls or ls[0] != 'lD' or any(not cl.edge(a, b) for a, b in zip(ls, ls[1:])) or 'lS' in ls[:-1]:
                 spec.append('C13.illegal-listener-path')
@@ -327,6 +402,92 @@ SERIAL = [
      [('O', True), ('E', 'f'), ('D', 'f'), ('E', 'f'), ('D', 'f'), ('H',)]),
 ]
 
+class SerialScenario(Scenario):
+    """the same lock-step builder for the real RTU client task on a pty: the environment is whether the port path exists
+    (link / unlink), whether the master side answers (serve on / off) and hang-ups"""
+
+    def __init__(self):
+        Scenario.__init__(self, 0)
+        self.sim = cl.Sim(self.cfg, serial=True)
+        self.serving = True
+
+    def connect_outcome(self):
+        return []                                  # the open result is applied by the model at once
+
+    def op(self, name, arg=None):
+        s = self.sim
+        if s.ph == 'Done':
+            return
+        if name in ('link', 'unlink'):
+            # a new pty replaces (and hangs up) the old one: only create one while the task holds no port; removing the
+            # path of an open port does not disturb it
+            if name == 'link' and (s.open_ok or s.connected()):
+                return
+            if name == 'unlink' and not s.open_ok:
+                return
+            self.ops.append(name)
+            self.h.append(name)
+            self.m.append(('O', name == 'link'))
+            s.apply(('O', name == 'link'))
+        elif name == 'serve':
+            self.ops.append(f'serve:{arg}')
+            self.serving = arg == 'on'
+            self.h.append(f'serve:{arg}')
+        elif name == 'hup':
+            if s.ph != 'Idle':
+                return
+            self.ops.append('hup')
+            s.apply(('O', False))
+            self.m.append(('O', False))
+            self._do(['unlink', 'hup'], [('Z',)])
+        elif name == 'submit':
+            self.ops.append('submit')
+            i = self.nid
+            self.nid += 1
+            tmo = TMO_SERVED if (s.ph == 'Idle' and self.serving) else TMO
+            ev = [('S', i, 'r', tmo * MS, 'f')]
+            if s.ph == 'Idle':
+                ev.append(('F', s.txid, 'g') if self.serving else ('T', tmo * MS))     # the tx label only steers the replica; RTU frames carry none
+            elif s.ph == 'Waiting':
+                ev += self.retry_events()
+            self._do([f'S:{i}:{tmo}'], ev)
+        else:
+            Scenario.op(self, name, arg)
+
+    def finish(self):
+        self.h.append('sleep:40')
+        return (f'rmin={RMS} rmax={2 * RMS} | ' + ' '.join(self.h), self.m)
+
+
+def gen_serial(r, n):
+    out = []
+    while len(out) < n:
+        sc = SerialScenario()
+        if r.random() < 0.6:
+            sc.op('link')
+        for _ in range(r.choice([3, 5, 8])):
+            k = r.random()
+            if k < 0.15:
+                sc.op(r.choice(['link', 'unlink']))
+            elif k < 0.25:
+                sc.op('serve', r.choice(['on', 'off']))
+            elif k < 0.45:
+                sc.op('enable')
+            elif k < 0.55:
+                sc.op('disable')
+            elif k < 0.7:
+                sc.op('retry')
+            elif k < 0.88:
+                sc.op('submit')
+            elif k < 0.95:
+                sc.op('hup')
+            else:
+                sc.op(r.choice(['shutdown', 'drop']))
+        sc.op(r.choice(['shutdown', 'drop']))
+        out.append(sc)
+    return out
+
+
 PCO = {'sD': 'SDisabled', 'sO': 'SOpen', 'sS': 'SShutdown'}
 
 
@@ -336,7 +497,15 @@ def sevent_coq(st):
     return 'SEnv (' + cl.step_coq(st) + ')'
 
 
-def serial(ctx):
+def serial(ctx, nrandom=0):
+    items = list(SERIAL)
+    for sc in gen_serial(ctx.rng, nrandom):
+        line, mscript = sc.finish()
+        items.append((line.split('| ', 1)[1], None, mscript))       # no hand-written expectation: the serial model is the reference
+    return serial_items(ctx, items)
+
+
+def serial_items(ctx, SERIAL):
     lines = [f'rmin={RMS} rmax={2 * RMS} | {x[0]}' for x in SERIAL]
     if cl.MODEL_OK:
         mod = ctx.coq_eval(cl.REQUIRES + ['Model.SerialTask', 'Model.SerialEager'], 'eval_scase',
@@ -344,7 +513,7 @@ def serial(ctx):
                            case_type='scase')
     else:
         mod = [None] * len(SERIAL)
-    impl = ctx.harness('serialcycle', lines, shards=3, timeout=300)
+    impl = ctx.harness('serialcycle', lines, shards=6, timeout=600)
     traces = [i.split('|')[0].split() for i in impl]
     res = ctx.coq_eval(['Base.Show', 'Spec.Lifecycle'], 'fun l : list pstate => show_bool (plegal l)',
                        ['[' + '; '.join(PCO.get(x, 'SWait ' + x[2:]) for x in t) + ']' for t in traces], case_type='list pstate')
@@ -353,8 +522,10 @@ def serial(ctx):
         why = []
         if legal != '1':
             why.append('C13.serial.illegal-port-state-path')
-        if i != want:
+        if want is not None and i != want:
             why.append('C13.serial.outcome-differs-from-the-expected-one')
+        if i.split('|')[-1]:
+            why.append('C13.serial.' + i.split('|')[-1].replace(' ', '-'))
         if m is not None:
             mt, mc, md = m.split('|')
             it, ic, idone = i.split('|')[:3]
@@ -373,9 +544,7 @@ def run(ctx):
     if not cl.prepare(ctx, ['Spec.Lifecycle', 'Model.SerialTask', 'Model.SerialEager']):
         return
     if ctx.replay and 'serial' in ctx.replay:
-        global SERIAL
-        SERIAL = [(x[0], x[1], [tuple(e) for e in x[2]]) for x in ctx.replay['serial']]
-        serial(ctx)
+        serial_items(ctx, [(x[0], x[1], [tuple(e) for e in x[2]]) for x in ctx.replay['serial']])
         return
     if ctx.replay and 'loopback' in ctx.replay:
         judge_loopback(ctx, [(o, l, cl.case_from_json(j)) for o, l, j in ctx.replay['loopback']])
@@ -408,8 +577,8 @@ def run(ctx):
     n_loop, ltraces = (0, [])
     n_serial = 0
     if not ctx.replay:
-        n_loop, ltraces = loopback(ctx, 60 if ctx.quick() else 150)
-        n_serial = serial(ctx)
+        n_loop, ltraces = loopback(ctx, 100 if ctx.quick() else 220)
+        n_serial = serial(ctx, 40 if ctx.quick() else 150)
     classes = {}
     for c, i in zip(cases, impl):
         for k in cl.classify(c, i):
